@@ -141,6 +141,12 @@ func c09Extras(r *fw.Rand, i int) []gen.NodeSpec {
 		ex = append(ex, gen.NodeSpec{Path: "other/up-link", Kind: "link", Target: "../mod/main.tf"})
 	}
 	if r.Chance(1, 2) {
+		// link text that is not in its shortest form must survive as written
+		ex = append(ex, gen.NodeSpec{Path: "mod/dot-link", Kind: "link", Target: "./main.tf"})
+		ex = append(ex, gen.NodeSpec{Path: "other/winding-link", Kind: "link", Target: ".././mod//main.tf"})
+		ex = append(ex, gen.NodeSpec{Path: "mod/sub/up-down-link", Kind: "link", Target: "../sub/../main.tf"})
+	}
+	if r.Chance(1, 2) {
 		ex = append(ex, gen.NodeSpec{Path: "empty-dir", Kind: "dir", Mode: 0755, Mtime: 1500000000})
 		ex = append(ex, gen.NodeSpec{Path: "mod/deep/empty", Kind: "dir", Mode: 0750, Mtime: 1500000000})
 	}
